@@ -144,8 +144,12 @@ def elements(tier):
                         [("cell", [("f1", wvar), ("f2", rv1),
                                    ("f3", rv2)])], anyk)))
     # ---- C1: single kernels under transformation histories -------------------
-    sten_c = [None, ["cross", "v"]] if quick else \
-        [None, ["cross", "v"], ["region", 2]]
+    # stencil extents written as LITERALS in the algorithm layer (1 and 2)
+    # are explored under transformations next to the variable extents: the
+    # literal is added to the loop's redundant-computation depth statically
+    sten_c = [None, ["cross", "v"], ["cross", 1], ["cross", 2]] if quick \
+        else [None, ["cross", "v"], ["cross", 1], ["cross", 2],
+              ["region", 2]]
     depth1 = 1
     for anyk in anykinds:
         for wvar in WRITERS:
@@ -169,10 +173,13 @@ def elements(tier):
             (WRITERS[1], ("read", "w1", ["cross", "v"])),
             (WRITERS[3], ("read", "w1", None)),
             (WRITERS[4], ("read", "w3", ["cross", "v"])),
-            (WRITERS[7], ("read", "any_space_1", None))]
+            (WRITERS[7], ("read", "any_space_1", None)),
+            (WRITERS[3], ("read", "w1", ["cross", 1])),
+            (WRITERS[0], ("read", "w3", ["cross", 1]))]
     if not quick:
         deep = [(w, r) for w in WRITERS[:5]
-                for r in readers(("w1", "w3"), [None, ["cross", "v"]])]
+                for r in readers(("w1", "w3"),
+                                 [None, ["cross", "v"], ["cross", 1]])]
     for wvar, rvar in deep:
         yield from out(emit("C2", make_spec(
             [("cell", [("f1", wvar), ("f2", rvar)])], "c"),
